@@ -21,6 +21,18 @@ func (x *Exec) call(st *State, fr *Frame, in *ssa.Call) Val {
 				return v
 			}
 		}
+		if rv := x.value(fr, st, c.Value); rv.Ifc != nil {
+			// the dynamic type is known here: call the concrete method
+			if sel := x.prog.MethodSets.MethodSet(rv.Ifc.ctype).Lookup(c.Method.Pkg(), c.Method.Name()); sel != nil {
+				if callee := x.prog.MethodValue(sel); callee != nil {
+					args := []Val{rv.Ifc.conc}
+					for _, a := range c.Args {
+						args = append(args, x.value(fr, st, a))
+					}
+					return x.callFunc(st, fr, in, callee, nil, args)
+				}
+			}
+		}
 		x.note("interface method call " + c.Method.Name() + " treated as opaque and pure")
 		if c.Method.Name() == "Error" || c.Method.Name() == "String" {
 			return x.fresh(st, rt, "str")
@@ -95,6 +107,15 @@ func (x *Exec) onStack(fn *ssa.Function) bool {
 }
 
 func (x *Exec) callFunc(st *State, fr *Frame, in *ssa.Call, callee *ssa.Function, bindings, args []Val) Val {
+	if callee.Pkg != nil && callee.Pkg.Pkg.Path() == "container/heap" {
+		// container/heap is replaced by the Go model verifHeap<Name> of the calling
+		// package (compiled with the verif tag), which over-approximates the sift
+		// loops by an arbitrary sequence of Less/Swap calls
+		if m := x.root.Pkg.Func("verifHeap" + callee.Name()); m != nil {
+			x.note("container/heap." + callee.Name() + " is replaced by the model " + m.Name() + " (A-std)")
+			callee = m
+		}
+	}
 	key := FuncKey(callee)
 	// 1. explicit models of external / stdlib functions
 	if v, ok := x.model(st, fr, in, callee, args); ok {
